@@ -400,6 +400,106 @@ def check_relocs(ctx, tabs):
 
 
 # ---------------------------------------------------------------------------------------------
+# (2b) rvc linker relaxation: can_shrink / do_shrink of cb_imm11, cbl_imm11
+
+
+def check_relax(ctx, tabs):
+    """the relocated value reaches the 11-bit C.J/C.JAL field through the relaxation path too: can_shrink must say yes
+    only if the displacement fits (four-region grid), and the shrunk + re-relocated instruction must designate S;
+    also through real final links of rvc objects (relaxation runs inside link())."""
+    classes = reloc_classes(tabs)
+    reqs, meta = [], []
+    grid = sorted({d + e for d in (0, 1024, -1024, 2044, 2046, 2048, 2050, 2998, 4094, 4096, 4098, -2046, -2048, -2050, -4094, -4096,
+                                  -4098, 8190, -8192) for e in (0, 2, -2)} | {3, -1}
+                  | {ctx.rng.randrange(-5000, 5000) & ~1 for _ in range(40 if ctx.thorough else 8)})
+    for name, opc, zero in (("cb_imm11", 5, "6f000000"), ("cbl_imm11", 1, "ef000000")):
+        cls = classes.get(("riscv", name))
+        bc = classes.get(("riscv", "bc_imm11"))
+        if cls is None or bc is None or not hasattr(cls, "can_shrink"):
+            ctx.broken.append({"kind": "translation", "msg": f"rvc relocation {name} / can_shrink no longer exists"})
+            continue
+        for P in (0x2000, 0x10002):
+            for d in grid:
+                S = P + d
+                try:
+                    can = cls(None).can_shrink(S, P)
+                    impl = "ok " + ("true" if can else "false")
+                except Exception as e:  # noqa
+                    can = None
+                    impl = "err " + exc_name(e)
+                case = {"isa": "riscv", "reloc": name, "cls": cls.__name__, "S": S, "P": P, "d": d, "region": region("bc_imm11", d)}
+                reqs.append(f"canshrink {S} {P}")
+                meta.append(("canshrink", impl, case))
+                if can:
+                    reqs.append(f"rrep riscv bc_imm11 {S} 0 {P}")
+                    meta.append(("rrep", impl, case))
+                    try:
+                        data, news = cls("t").do_shrink(S, bytearray.fromhex(zero), P)
+                        out = bytes(bc(None).apply(S, bytearray(data), P))
+                        impl2 = "ok " + out.hex()
+                    except Exception as e:  # noqa
+                        impl2 = "err " + exc_name(e)
+                    reqs.append(f"rapply riscv shrink_{name} 0 {S} {zero} {P}")
+                    meta.append(("doshrink", "ok " + bytes(data).hex() if impl2 != "err" else impl2, case))
+                    if impl2.startswith("ok"):
+                        reqs.append(f"rtarget riscv bc_imm11 {impl2[3:]} {P}")
+                        meta.append(("rtarget", impl2, case))
+                    else:
+                        ctx.count("relax_shrunk_rejected")
+    # real final links of rvc objects: relaxation runs inside link()
+    from harness import c11 as L
+    from ppci.api import get_arch
+    arch = get_arch("riscv:rvc")
+    links = []
+    for name, zero in (("cb_imm11", "6f000000"), ("cbl_imm11", "ef000000")):
+        for d in (2040, 2046, 2048, 2050, 2998, 4090, 4094, 4096, -2044, -2048, -2050, -2052, -4096, -4100) + \
+                ((1000, -1000, 3000, -3000, 8190, -8192) if ctx.thorough else ()):
+            code_addr = 0x4000
+            P = code_addr
+            S = P + d
+            sym_off = S % 16
+            try:
+                sec_addr, data, symval = L.build_and_link(arch, name, 0, bytes.fromhex(zero), 0, sym_off, code_addr, S - sym_off)
+            except Exception as e:  # noqa
+                ctx.count("relax_link_" + exc_name(e))
+                continue
+            ctx.count("eval_relax_link")
+            shrunk = len(data) < 8
+            ctx.count("relax_link_shrunk" if shrunk else "relax_link_kept")
+            rt = "bc_imm11" if shrunk else name
+            case = {"isa": "riscv", "reloc": name, "cls": classes[("riscv", name)].__name__, "S": symval, "P": sec_addr, "d": symval - sec_addr,
+                    "region": region("bc_imm11", symval - sec_addr), "linked": data.hex(), "shrunk": shrunk}
+            if shrunk:
+                reqs.append(f"rrep riscv bc_imm11 {symval} 0 {sec_addr}")
+                meta.append(("rrep", "ok", case))
+                reqs.append(f"rtarget riscv bc_imm11 {data[0:2].hex()} {sec_addr}")
+                meta.append(("rtarget", "ok " + data[0:2].hex(), case))
+    out = ctx.driver("C10", reqs)
+    for rq, (kind, impl, case), m in zip(reqs, meta, out):
+        if kind == "canshrink":
+            ctx.count("eval_can_shrink")
+            ctx.nontrivial(rq)
+            if impl != m:
+                ctx.disagree("can_shrink", rq, impl, m)
+        elif kind == "doshrink":
+            ctx.count("eval_do_shrink")
+            if impl != m:
+                ctx.disagree("do_shrink", rq, impl, m)
+        elif kind == "rrep":
+            ctx.count("eval_relax_property")
+            if m != "ok true":
+                ctx.fail(f"{case['cls']}:relaxed-{case['region']}",
+                         f"riscv {case['reloc']}: displacement {case['d']} (S={case['S']} P={case['P']}) lies in {case['region']} and does not fit "
+                         f"C.J/C.JAL's 12-bit signed offset, but {'link() relaxed' if case.get('shrunk') else 'can_shrink allows shrinking'} the jump",
+                         case)
+        elif kind == "rtarget":
+            if m != f"ok {case['S']}":
+                ctx.fail(f"{case['cls']}:relaxed-jump-designates-wrong-target-{case['region']}",
+                         f"riscv {case['reloc']}: displacement {case['d']}: the shrunk jump {impl[3:]} at {case['P']} designates {m[3:]}, "
+                         f"symbol is at {case['S']}", case)
+
+
+# ---------------------------------------------------------------------------------------------
 # (3) instruction classes
 
 
@@ -673,6 +773,7 @@ def check(ctx):
     check_corpus(ctx, tabs)
     check_tokens(ctx, tabs)
     check_relocs(ctx, tabs)
+    check_relax(ctx, tabs)
     check_instrs(ctx, tabs)
     ctx.extra_cov["exhaustive"] = False
     ctx.extra_cov["isas"] = ISAS
